@@ -30,7 +30,20 @@ const (
 	cTuple  // multi-value
 	cMap    // a constant package-level table
 	cNilPtr // typed nil
+	cRef    // pointer to a cell (local variable, global)
+	cArr    // pointer to an array
+	cElem   // pointer to an element of an array
+	cSlice  // slice of an array
+	cMapV   // a map built during the interpretation
+	cZero   // zero value of a struct type (struct{}{})
 )
+
+type ccell struct{ v cval }
+type carray struct{ e []cval }
+type cmapv struct {
+	e    map[string]cval
+	keys []cval
+}
 
 type cval struct {
 	kind   ckind
@@ -42,6 +55,11 @@ type cval struct {
 	parts  []string        // cStr: constant parts, in order of concatenation
 	tuple  []cval
 	m      map[string]cval // cMap
+	cell   *ccell          // cRef
+	arr    *carray         // cArr, cElem, cSlice
+	idx    int             // cElem
+	lo, hi int             // cSlice
+	mv     *cmapv          // cMapV
 }
 
 func (v cval) String() string {
@@ -223,8 +241,64 @@ type concrOutcome struct {
 }
 
 type concr struct {
-	w     *World
-	steps int
+	w           *World
+	steps       int
+	globals     map[*ssa.Global]*ccell // package-level variables written during the interpretation (package initialisers)
+	zeroGlobals bool                   // a package initialiser is being followed from the start: unassigned package-level variables of the module are zero
+	heap        bool                   // follow stores, arrays, slices and maps (concrete interpretation of initialisers and string helpers)
+}
+
+func (ci *concr) globalCell(g *ssa.Global) *ccell {
+	if ci.globals == nil {
+		ci.globals = map[*ssa.Global]*ccell{}
+	}
+	c, ok := ci.globals[g]
+	if !ok {
+		c = &ccell{v: zeroCval(g.Type().(*types.Pointer).Elem(), false)}
+		ci.globals[g] = c
+	}
+	return c
+}
+
+func intOf(v cval) (int, bool) {
+	if v.kind != cConst || v.c.Kind() != constant.Int {
+		return 0, false
+	}
+	i, ok := constant.Int64Val(v.c)
+	return int(i), ok
+}
+
+func mkInt(i int) cval { return cval{kind: cConst, c: constant.MakeInt64(int64(i))} }
+
+// bytesOf: a slice of known bytes / a constant string as a Go string.
+func bytesOf(v cval) (string, bool) {
+	switch v.kind {
+	case cConst:
+		if v.c.Kind() == constant.String {
+			return constant.StringVal(v.c), true
+		}
+	case cSlice:
+		var sb strings.Builder
+		for i := v.lo; i < v.hi; i++ {
+			b, ok := intOf(v.arr.e[i])
+			if !ok {
+				return "", false
+			}
+			sb.WriteByte(byte(b))
+		}
+		return sb.String(), true
+	case cNilPtr:
+		return "", true
+	}
+	return "", false
+}
+
+func sliceOfBytes(sv string) cval {
+	a := &carray{}
+	for i := 0; i < len(sv); i++ {
+		a.e = append(a.e, mkInt(int(sv[i])))
+	}
+	return cval{kind: cSlice, arr: a, lo: 0, hi: len(sv)}
 }
 
 func (w *World) newConcr() *concr { return &concr{w: w} }
@@ -303,6 +377,14 @@ func (ci *concr) run(fn *ssa.Function, args []cval, depth int) concrOutcome {
 				switch x.Op {
 				case token.MUL:
 					if g, ok := x.X.(*ssa.Global); ok {
+						if c, have := ci.globals[g]; have {
+							env[x] = c.v
+							continue
+						}
+						if ci.zeroGlobals && g.Pkg != nil && corePkg(g.Pkg.Pkg.Path()) {
+							env[x] = ci.globalCell(g).v // not yet assigned by the initialiser being followed: the zero value
+							continue
+						}
 						if cm := ci.w.constMapOf(g); cm.why == "" {
 							env[x] = cval{kind: cMap, m: cm.entries}
 							continue
@@ -311,11 +393,18 @@ func (ci *concr) run(fn *ssa.Function, args []cval, depth int) concrOutcome {
 						continue
 					}
 					v := get(x.X)
-					if v.kind == cField {
+					switch v.kind {
+					case cField:
 						if f, ok := v.dyn.fields[v.field]; ok {
 							env[x] = f
 							continue
 						}
+					case cRef:
+						env[x] = v.cell.v
+						continue
+					case cElem:
+						env[x] = v.arr.e[v.idx]
+						continue
 					}
 					env[x] = cval{}
 				case token.NOT:
@@ -337,6 +426,9 @@ func (ci *concr) run(fn *ssa.Function, args []cval, depth int) concrOutcome {
 				}
 			case *ssa.Lookup:
 				m, k := get(x.X), get(x.Index)
+				if m.kind == cMapV && k.kind == cConst {
+					m = cval{kind: cMap, m: m.mv.e}
+				}
 				if m.kind == cMap && k.kind == cConst {
 					e, ok := m.m[constKey(k.c)]
 					if !ok {
@@ -355,12 +447,52 @@ func (ci *concr) run(fn *ssa.Function, args []cval, depth int) concrOutcome {
 			case *ssa.ChangeType:
 				env[x] = get(x.X)
 			case *ssa.Convert:
-				env[x] = get(x.X)
+				v := get(x.X)
+				_, toSlice := x.Type().Underlying().(*types.Slice)
+				switch {
+				case toSlice && v.kind == cConst && v.c.Kind() == constant.String:
+					env[x] = sliceOfBytes(constant.StringVal(v.c))
+				case isStringType(x.Type()) && (v.kind == cSlice || v.kind == cNilPtr):
+					if sv, ok := bytesOf(v); ok {
+						env[x] = cval{kind: cConst, c: constant.MakeString(sv)}
+					} else {
+						env[x] = cval{}
+					}
+				case v.kind == cConst && v.c.Kind() == constant.Int && isIntType(x.Type()):
+					// integer conversions: wrap to the width of the target
+					if i, ok := constant.Int64Val(v.c); ok {
+						switch intWidth(x.Type()) {
+						case 8:
+							if bt, _ := x.Type().Underlying().(*types.Basic); bt != nil && bt.Info()&types.IsUnsigned != 0 {
+								i = int64(uint8(i))
+							} else {
+								i = int64(int8(i))
+							}
+						case 16:
+							i = int64(int16(i))
+						case 32:
+							i = int64(int32(i))
+						}
+						env[x] = cval{kind: cConst, c: constant.MakeInt64(i)}
+					} else {
+						env[x] = v
+					}
+				default:
+					env[x] = v
+				}
 			case *ssa.MakeInterface:
 				env[x] = get(x.X)
 			case *ssa.ChangeInterface:
 				env[x] = get(x.X)
 			case *ssa.Call:
+				if bi, ok := x.Call.Value.(*ssa.Builtin); ok {
+					var as []cval
+					for _, a := range x.Call.Args {
+						as = append(as, get(a))
+					}
+					env[x] = concrBuiltin(bi.Name(), as, x.Type())
+					continue
+				}
 				callee := x.Call.StaticCallee()
 				if callee != nil && callee.Blocks != nil && corePkg(fnPkgPath(callee)) && !x.Call.IsInvoke() {
 					var as []cval
@@ -384,6 +516,138 @@ func (ci *concr) run(fn *ssa.Function, args []cval, depth int) concrOutcome {
 					continue
 				}
 				env[x] = unknownResult(x.Type())
+			case *ssa.Alloc:
+				if !ci.heap {
+					env[x] = cval{}
+					continue
+				}
+				et := x.Type().(*types.Pointer).Elem()
+				if at, ok := et.Underlying().(*types.Array); ok {
+					a := &carray{e: make([]cval, at.Len())}
+					for i := range a.e {
+						a.e[i] = zeroCval(at.Elem(), false)
+					}
+					env[x] = cval{kind: cArr, arr: a}
+				} else {
+					env[x] = cval{kind: cRef, cell: &ccell{v: zeroCval(et, false)}}
+				}
+			case *ssa.IndexAddr:
+				base, iv := get(x.X), get(x.Index)
+				i, ok := intOf(iv)
+				switch {
+				case !ok:
+					env[x] = cval{}
+				case base.kind == cArr && i >= 0 && i < len(base.arr.e):
+					env[x] = cval{kind: cElem, arr: base.arr, idx: i}
+				case base.kind == cSlice && i >= 0 && base.lo+i < base.hi:
+					env[x] = cval{kind: cElem, arr: base.arr, idx: base.lo + i}
+				case base.kind == cArr || base.kind == cSlice:
+					return concrOutcome{status: "panic", why: "index out of range at " + ci.w.pos(x.Pos())}
+				default:
+					env[x] = cval{}
+				}
+			case *ssa.Index:
+				base, iv := get(x.X), get(x.Index)
+				i, ok := intOf(iv)
+				if sv, isS := bytesOf(base); isS && ok && base.kind == cConst {
+					if i < 0 || i >= len(sv) {
+						return concrOutcome{status: "panic", why: "index out of range at " + ci.w.pos(x.Pos())}
+					}
+					env[x] = mkInt(int(sv[i]))
+				} else {
+					env[x] = cval{}
+				}
+			case *ssa.Store:
+				if !ci.heap {
+					return concrOutcome{status: "unknown", why: "store in " + funcName(fn)}
+				}
+				if g, ok := x.Addr.(*ssa.Global); ok {
+					ci.globalCell(g).v = get(x.Val)
+					continue
+				}
+				a := get(x.Addr)
+				switch a.kind {
+				case cRef:
+					a.cell.v = get(x.Val)
+				case cElem:
+					a.arr.e[a.idx] = get(x.Val)
+				default:
+					return concrOutcome{status: "unknown", why: "store through an address that is not followed at " + ci.w.pos(x.Pos())}
+				}
+			case *ssa.Slice:
+				base := get(x.X)
+				lo, hi := 0, -1
+				okb := true
+				if x.Low != nil {
+					lo, okb = intOf(get(x.Low))
+				}
+				if x.High != nil && okb {
+					hi, okb = intOf(get(x.High))
+				}
+				if !okb {
+					env[x] = cval{}
+					continue
+				}
+				switch base.kind {
+				case cConst:
+					if sv, ok := bytesOf(base); ok {
+						if hi < 0 {
+							hi = len(sv)
+						}
+						if lo < 0 || lo > hi || hi > len(sv) {
+							return concrOutcome{status: "panic", why: "slice bounds out of range at " + ci.w.pos(x.Pos())}
+						}
+						env[x] = cval{kind: cConst, c: constant.MakeString(sv[lo:hi])}
+						continue
+					}
+					env[x] = cval{}
+				case cArr:
+					if hi < 0 {
+						hi = len(base.arr.e)
+					}
+					if lo < 0 || lo > hi || hi > len(base.arr.e) {
+						return concrOutcome{status: "panic", why: "slice bounds out of range at " + ci.w.pos(x.Pos())}
+					}
+					env[x] = cval{kind: cSlice, arr: base.arr, lo: lo, hi: hi}
+				case cSlice:
+					if hi < 0 {
+						hi = base.hi - base.lo
+					}
+					if lo < 0 || lo > hi || base.lo+hi > len(base.arr.e) {
+						return concrOutcome{status: "panic", why: "slice bounds out of range at " + ci.w.pos(x.Pos())}
+					}
+					env[x] = cval{kind: cSlice, arr: base.arr, lo: base.lo + lo, hi: base.lo + hi}
+				case cNilPtr:
+					env[x] = base
+				default:
+					env[x] = cval{}
+				}
+			case *ssa.MakeSlice:
+				n, ok := intOf(get(x.Len))
+				if !ok || !ci.heap {
+					env[x] = cval{}
+					continue
+				}
+				a := &carray{e: make([]cval, n)}
+				for i := range a.e {
+					a.e[i] = zeroCval(x.Type().Underlying().(*types.Slice).Elem(), false)
+				}
+				env[x] = cval{kind: cSlice, arr: a, lo: 0, hi: n}
+			case *ssa.MakeMap:
+				if !ci.heap {
+					env[x] = cval{}
+					continue
+				}
+				env[x] = cval{kind: cMapV, mv: &cmapv{e: map[string]cval{}}}
+			case *ssa.MapUpdate:
+				m, k := get(x.Map), get(x.Key)
+				if m.kind != cMapV || k.kind != cConst {
+					return concrOutcome{status: "unknown", why: "map update that is not followed at " + ci.w.pos(x.Pos())}
+				}
+				if _, have := m.mv.e[constKey(k.c)]; !have {
+					m.mv.keys = append(m.mv.keys, k)
+				}
+				m.mv.e[constKey(k.c)] = get(x.Value)
 			case *ssa.DebugRef:
 			case *ssa.If:
 				c := get(x.Cond)
@@ -435,6 +699,73 @@ func concrCondPos(x *ssa.If, b *ssa.BasicBlock) token.Pos {
 	return token.NoPos
 }
 
+func concrBuiltin(name string, as []cval, t types.Type) cval {
+	switch name {
+	case "len":
+		if len(as) == 1 {
+			switch as[0].kind {
+			case cConst:
+				if as[0].c.Kind() == constant.String {
+					return mkInt(len(constant.StringVal(as[0].c)))
+				}
+			case cSlice:
+				return mkInt(as[0].hi - as[0].lo)
+			case cNilPtr:
+				return mkInt(0)
+			case cMapV:
+				return mkInt(len(as[0].mv.e))
+			case cMap:
+				return mkInt(len(as[0].m))
+			}
+		}
+	case "min", "max":
+		best, ok := 0, false
+		for i, a := range as {
+			v, isInt := intOf(a)
+			if !isInt {
+				return cval{}
+			}
+			if i == 0 || (name == "min" && v < best) || (name == "max" && v > best) {
+				best = v
+			}
+			ok = true
+		}
+		if ok {
+			return mkInt(best)
+		}
+	case "append":
+		if len(as) == 2 {
+			base, add := as[0], as[1]
+			var elems []cval
+			switch base.kind {
+			case cSlice:
+				elems = append(elems, base.arr.e[base.lo:base.hi]...)
+			case cNilPtr:
+			default:
+				return cval{}
+			}
+			switch add.kind {
+			case cSlice:
+				elems = append(elems, add.arr.e[add.lo:add.hi]...)
+			case cNilPtr:
+			case cConst:
+				if add.c.Kind() != constant.String {
+					return cval{}
+				}
+				sv := constant.StringVal(add.c)
+				for i := 0; i < len(sv); i++ {
+					elems = append(elems, mkInt(int(sv[i])))
+				}
+			default:
+				return cval{}
+			}
+			// a fresh array: aliasing between the old and the new slice is not modelled, the table code does not rely on it
+			return cval{kind: cSlice, arr: &carray{e: elems}, lo: 0, hi: len(elems)}
+		}
+	}
+	return unknownResult(t)
+}
+
 func unknownResult(t types.Type) cval {
 	if b, ok := t.Underlying().(*types.Basic); ok && b.Info()&types.IsString != 0 {
 		return cval{kind: cStr, parts: []string{"\x00?"}}
@@ -458,6 +789,12 @@ func zeroCval(t types.Type, commaOk bool) cval {
 		case u.Info()&types.IsNumeric != 0:
 			return cval{kind: cConst, c: constant.MakeInt64(0)}
 		}
+	case *types.Slice, *types.Pointer, *types.Map, *types.Interface:
+		return cval{kind: cNilPtr}
+	case *types.Struct:
+		if u.NumFields() == 0 {
+			return cval{kind: cZero}
+		}
 	}
 	return cval{}
 }
@@ -473,6 +810,22 @@ func concrBinOp(op token.Token, a, b cval) cval {
 			return v.parts, true
 		}
 		return nil, false
+	}
+	isRef := func(v cval) bool {
+		switch v.kind {
+		case cSlice, cRef, cArr, cElem, cMapV, cMap, cDyn:
+			return true
+		}
+		return false
+	}
+	if (op == token.EQL || op == token.NEQ) && (a.kind == cNilPtr || b.kind == cNilPtr) {
+		switch {
+		case a.kind == cNilPtr && b.kind == cNilPtr:
+			return cval{kind: cConst, c: constant.MakeBool(op == token.EQL)}
+		case isRef(a) || isRef(b):
+			return cval{kind: cConst, c: constant.MakeBool(op == token.NEQ)}
+		}
+		return cval{}
 	}
 	if a.kind == cConst && b.kind == cConst {
 		switch op {
